@@ -133,11 +133,13 @@ func daStream(t *testing.T, e *vgen.Env, res *vgen.Result, tmp string, crash boo
 		if r.HeightEnd > r.HeightStop {
 			res.Count("da-ingress:progress-after-restart")
 		}
-		for k, v := range r.FaultsServed {
-			res.Distribution["da-ingress:request-failed:"+k] += v
+		// scripted failing requests by site and class (what was served before a stop depends on scheduling)
+		for _, fs := range sc.Faults {
+			for _, f := range fs {
+				res.Distribution["da-ingress:scripted-failing-request:"+syncdrv.DAFaultName(f)]++
+			}
 		}
 		for _, p := range r.Procs {
-			res.Distribution["da-ingress:requests-served-for-existing-heights"] += p.RealReqs // polls of the tip depend on scheduling
 			if p.Quiescent {
 				res.Count("da-ingress:processes-run-to-quiescence")
 			}
